@@ -11,7 +11,7 @@
    spurious I/O errors under descriptor pressure, and what happens when another
    instance deletes packs (repack).  Statements only; proofs in Proofs/C23.v. *)
 From Coq Require Import List NArith Bool.
-From GoGit Require Import Model.IndexPublish Proofs.C23.
+From GoGit Require Import Model.IndexPublish Proofs.C23 Model.IdxRefs Proofs.C23refs.
 Import ListNotations.
 Local Open Scope N_scope.
 
@@ -67,4 +67,42 @@ Example C23_loser_closes :
                 [0;0;0;0; 1;1;1; 0;0;0;0;0; 1; 2;2;2;2; 3;3;3;3]%nat in
   n_open (sh st) = 2%nat /\ n_pub (sh st) = 1%nat /\ n_closed (sh st) = 1%nat /\
   threads st = [TLookupDone 0 true; TReDone; TLookupDone 1 false; TLookupDone 2 true].
+Proof. vm_compute. repeat split. Qed.
+
+(* ---- reference accounting of LazyIndex iterators (Model/IdxRefs.v) ----
+   Readers, lazyPrefixIter iterators (as HashesWithPrefix drives them: eager
+   release at the first entry without the prefix, exhaustion at the end of the
+   bucket, release inside EntriesWithPrefix, early Close, repeated Close) and
+   pool evictions on one .idx SharedFile, in EVERY interleaving: the reference
+   count is exactly the number of goroutines holding a reference; every
+   acquired reference is released exactly once (acquires = releases + live
+   references, no Release ever finds the count at zero); a descriptor is open
+   whenever somebody holds a reference, and no ReadAt ever hits a descriptor
+   the pool has closed. *)
+Theorem C23_refs_exact : forall ts sched, forallb istarting ts = true ->
+  let st := irun true (iinit ts) sched in
+  refs (ish st) = iholders (ithreads st) /\
+  n_acq (ish st) = (n_rel (ish st) + refs (ish st))%nat /\
+  n_ignored (ish st) = 0%nat /\
+  bad (ish st) = false /\
+  ((0 < refs (ish st))%nat -> fopen (ish st) = true).
+Proof. exact refs_exact. Qed.
+Print Assumptions C23_refs_exact.
+
+(* what the invariant excludes: an iterator whose eager release does not clear
+   it.idx releases the same reference again in Close(); the surplus Release
+   takes the reference of a concurrent reader, the pool evicts the "unpinned"
+   file and the reader's next ReadAt finds the descriptor closed *)
+Theorem C23_refs_unclear_refuted :
+  let st := irun false (iinit [RdStart 2; ItStart 0 TMismatch; Evictor 1])
+                 [(0, Adv); (1, Adv); (1, Adv); (1, Adv); (1, Adv); (2, Adv); (0, Adv)]%nat in
+  bad (ish st) = true /\ refs (ish st) = 0%nat /\ iholders (ithreads st) = 1%nat.
+Proof. vm_compute. repeat split. Qed.
+Print Assumptions C23_refs_unclear_refuted.
+
+(* the same schedule with the code as it is *)
+Example C23_refs_same_schedule_ok :
+  let st := irun true (iinit [RdStart 2; ItStart 0 TMismatch; Evictor 1])
+                 [(0, Adv); (1, Adv); (1, Adv); (1, Adv); (1, Adv); (2, Adv); (0, Adv)]%nat in
+  bad (ish st) = false /\ refs (ish st) = 1%nat /\ latch (ish st) = true.
 Proof. vm_compute. repeat split. Qed.
